@@ -2476,10 +2476,11 @@ impl BrailleChars {
 
         fn lower_case_roman_numerals(mn_node: Element) {
             if mn_node.attribute("data-roman-numeral").is_some() {
-                // if a roman numeral, all ASCII so we can optimize
+                // a roman numeral is usually all ASCII, but a mathvariant can have turned the letters into math alphanumerics
                 let text = as_text(mn_node);
-                let mut new_text = String::from(&text[..1]);
-                new_text.push_str(text[1..].to_ascii_lowercase().as_str());    // works for single char too
+                let first_len = text.chars().next().map_or(0, |ch| ch.len_utf8());
+                let mut new_text = String::from(&text[..first_len]);
+                new_text.push_str(text[first_len..].to_ascii_lowercase().as_str());    // works for single char too
                 mn_node.set_text(&new_text);
             }
         }
